@@ -37,12 +37,12 @@ def _strval(node, facts, model):
     k = _key(node)
     if k is not None and k in facts.strs:
         return facts.strs[k]
-    if isinstance(node, ast.Constant) and isinstance(node.value, str):
+    if isinstance(node, ast.Constant) and isinstance(node.value, (str, int)) and not isinstance(node.value, bool):
         return node.value
     if isinstance(node, ast.Name) and model is not None:
         try:
             v = model.const(node)
-            if isinstance(v, str):
+            if isinstance(v, (str, int)):
                 return v
         except NotConst:
             pass
@@ -128,9 +128,9 @@ def walk(stmts, facts, alg, model=None, rule="dispatch", construct="?"):
                 tk = _key(s.targets[0])
                 if tk in facts.strs:
                     sv = _strval(s.value, facts, model)
-                    if sv is None:
-                        raise AnalysisError(rule, "construct=%s key %s assigned a non-constant line %d" % (construct, tk, s.lineno))
-                    facts.strs[tk] = sv
+                    if sv is not None:
+                        facts.strs[tk] = sv
+                    # a non-constant definition (size = len(h)) is the quantity the scenario fixes: keep the fact
                     continue
             try:
                 if isinstance(s, ast.AugAssign) and isinstance(s.target, ast.Attribute):
